@@ -131,6 +131,12 @@ structure Walker (Node : Type) where
   inhibitElision : Bool
   /-- NOT in the Rust: `true` selects the behaviour of `set_node` before the repair of finding F20 -/
   preFix : Bool := false
+  /-- NOT in the Rust: `true` = the seeded changes `C02-elision-promoted-page-diff-drops-reconstruction` /
+  `C03-wal-diff-drops-reconstruction`: `push_updated` hands out `updated.diff` instead of `updated.total_diff()` -/
+  mutDropReconDiff : Bool := false
+  /-- NOT in the Rust: `true` = the seeded change `C02-elision-stale-prev-counter`: the tail of
+  `handle_elision_threshold` does not reset the parent's `prev_children_leaves_counter` -/
+  mutStalePrev : Bool := false
 
 /-- `Output` -/
 inductive Output (Node : Type) where
@@ -243,7 +249,8 @@ def pushReconstructed (w : Walker Node) (sp : StackPage Node) : WR (Walker Node)
 
 /-- the closure `push_updated` -/
 def pushUpdated (w : Walker Node) (sp : StackPage Node) : Walker Node :=
-  { w with outputPages := w.outputPages ++ [.updated sp.pageId sp.page sp.totalDiff (sp.bucket.getD none)] }
+  { w with outputPages := w.outputPages ++
+      [.updated sp.pageId sp.page (if w.mutDropReconDiff then sp.diff else sp.totalDiff) (sp.bucket.getD none)] }
 
 def pushOut (w : Walker Node) (sp : StackPage Node) : WR (Walker Node) :=
   if w.reconstruction then pushReconstructed w sp else .ok (pushUpdated w sp)
@@ -254,7 +261,8 @@ def keepPage (w : Walker Node) (sp : StackPage Node) (parent : StackPage Node) (
   match childIndexAtLevel sp.pageId (sp.pageId.length - 1) with
   | none => .panic "handle_elision_threshold: child_index_at_level"
   | some ci =>
-    let parent := { parent with childrenLeaves := none, prevChildrenLeaves := none,
+    let parent := { parent with childrenLeaves := none,
+                                prevChildrenLeaves := if w.mutStalePrev then parent.prevChildrenLeaves else none,
                                 elided := PageLayout.elidedSet parent.elided ci false }
     pushOut { w with stack := parent :: rest } sp
 
